@@ -87,6 +87,17 @@ def corpus_cases():
                     ("struct", "Tri", fields),
                     ("iface", "ITri", None, [("method", "put", [("in", "Tri", None, "r"), ("out", "Tri", None, "w")], False, None)])]}],
                     "main": "main.idl", "idirs": []})
+    # a struct that needs padding, used as a member (directly, in an array, one level down) of structs whose
+    # names sort before and after its own, declared before and after it: every struct is verified, in
+    # whatever order the verifier walks them
+    padded = ("struct", "Header", [("uint8", 1, "kind"), ("uint32", 1, "length")])
+    for user in ("Frame", "Packet", "Alpha", "Zeta"):
+        for shape in ([("Header", 1, "hdr"), ("uint8", 3, "tag"), ("uint64", 1, "stamp")], [("uint64", 1, "stamp"), ("Header", 2, "hdrs"), ("uint8", 6, "tag")]):
+            for first in (True, False):
+                ud = ("struct", user, shape)
+                wrap = ("struct", "Box" + user, [(user, 1, "inner"), ("uint64", 1, "x")])
+                decls = ([padded, ud, wrap] if first else [wrap, ud, padded]) + [("iface", "IUse", None, [("method", "f", [("in", "Box" + user, None, "v")], False, None)])]
+                out.append({"files": [{"path": "main.idl", "includes": [], "decls": decls}], "main": "main.idl", "idirs": []})
     return out
 
 
